@@ -33,6 +33,9 @@ CHECKS = {
  "C12": dict(cat="exploration", tech="exhaustive enumeration of compiled models (expression families, corpus, direct LinearModel families x coefficient/domain/naming alphabets); renderings recompiled through parse/type-check/transform/linearize and compared exactly",
    text="Model renderings of all compiled expression-family programs and corpus programs must be accepted and linearize to the same linear model; LinearModel renderings (of those models and of direct families with coefficients down to 1e-9 and up to 1e9, $-prefixed and indexed names, all domain forms, min/max/satisfy, offsets) must recompile to the same rows, objective, offset and domains, and render to the same text again.",
    note="Trusted: exact f64 comparison (Rust prints shortest round-trip decimals); all-zero rows compared by truth value; unused variables projected away; hand-built models are first compiled once (their first compilation must be exactly equivalent per the exact MILP oracle).", ref="4/C12"),
+ "C10": dict(cat="exploration", tech="exhaustive enumeration of Exp trees up to a size bound over every constructor x 72 assignments, rewrites judged by an exact reference evaluator; exhaustive (template x constant x spelling) twin compilation",
+   text="Part A: every Exp tree with <= 2 operator nodes (thorough: full leaf alphabet and size 3 over a reduced alphabet, 42M trees) is rewritten by simplify, flatten and both compositions; at every assignment where the original is defined the rewrite must be defined and equal, simplify must be idempotent, and a division whose denominator is zero or not constant must survive. Part B: 7 templates x 6 constants x 12 spellings (incl. where- and API-supplied constants) must compile to identical or exactly equivalent linear models, or be rejected alike.",
+   note="Trusted: exact strict reference evaluator (truthy iff non-zero); assignments at which a non-constant logic operand is not 0/1 are outside the language and skipped; f64 folding of non-dyadic constants tolerated at 1e-12.", ref="4/C10"),
 }
 NA_REASON = "engine not built yet in this round (planned, see DESIGN.md section 4); not claimed until its check exists"
 ALL = ["C%02d" % i for i in range(1, 21)]
